@@ -7,6 +7,7 @@ import XlVerif.Model.C01
 import XlVerif.Spec.C01
 import XlVerif.Lemmas.C02Pct
 import XlVerif.Lemmas.C02Clean
+import XlVerif.Lemmas.C01Repr
 import Mathlib.Tactic.SplitIfs
 import Mathlib.Tactic.Ring
 import Mathlib.Tactic.Linarith
@@ -107,22 +108,24 @@ theorem toRat_sub (a b : Num) : (Num.sub a b).toRat = a.toRat - b.toRat := by
 theorem toRat_mul (a b : Num) : (Num.mul a b).toRat = a.toRat * b.toRat := by
   cases a <;> cases b <;> simp [Num.mul, Num.toRat]
 
-/-- an operand that coerces to a number without reading a text -/
+/-- an operand that coerces to a number: a number, a boolean, or a text of the form `-?digits+` -/
 inductive NumLike : S → Rat → Prop
   | num (n : Num) : NumLike (.num n) n.toRat
   | bool (b : Bool) : NumLike (.bool b) (if b then 1 else 0)
+  | text (s : List Char) (z : Int) (h : intOfText s = some z) : NumLike (.text s) (z : Rat)
 
 theorem NumLike.toNumber {x : S} {q : Rat} (h : NumLike x q) : ∃ n, toNumber ext0 x = .ok n ∧ n.toRat = q := by
   cases h with
   | num n => exact ⟨n, rfl, rfl⟩
   | bool b => exact ⟨.int (if b then 1 else 0), rfl, by cases b <;> simp [Num.toRat]⟩
+  | text s z h => exact ⟨.int z, textNumber_intOfText s z h, rfl⟩
 
 theorem NumLike.isErr {x : S} {q : Rat} (h : NumLike x q) : isErr x = none := by
   cases h <;> rfl
 
 /-- the Spec's coercion, for operands that are numbers or booleans -/
-theorem numLike_of_agree {x : S} {v : Res} {q : Rat} (ha : Agree (.val x) v) (hq : toNum v = .num q)
-    (hnt : ∀ s, v ≠ .text s) : NumLike x q := by
+theorem numLike_of_agree {x : S} {v : Res} {q : Rat} (ha : Agree (.val x) v) (hq : toNum v = .num q) :
+    NumLike x q := by
   cases v with
   | num q' =>
     obtain ⟨n, hn, hq'⟩ := agree_num ha
@@ -132,7 +135,16 @@ theorem numLike_of_agree {x : S} {v : Res} {q : Rat} (ha : Agree (.val x) v) (hq
     have := agree_bool ha
     simp only [toNum, Coerced.num.injEq] at hq
     cases this; rw [← hq]; exact NumLike.bool b
-  | text s => exact absurd rfl (hnt s)
+  | text s =>
+    have := agree_text ha
+    cases this
+    simp only [toNum] at hq
+    cases hz : intOfText s with
+    | none => rw [hz] at hq; cases hq
+    | some z =>
+      rw [hz] at hq
+      simp only [Coerced.num.injEq] at hq
+      rw [← hq]; exact NumLike.text s z hz
   | err c => simp [toNum] at hq
   | undef => simp [toNum] at hq
 
@@ -172,6 +184,8 @@ theorem richCmp_eq_zero {y : S} {b : Rat} (hy : NumLike y b) :
     refine ⟨Model.Value.keyEq (0, .n n.toRat) (0, .n 0), by simp [richCmp, sortKey, sortKeyNB, Num.toRat], ?_⟩
     intro h; simpa [Model.Value.keyEq, Key.eq] using h
   | bool c =>
+    exact ⟨false, by simp [richCmp, sortKey, sortKeyNB, Model.Value.keyEq, Key.eq], by intro h; cases h⟩
+  | text s z hz =>
     exact ⟨false, by simp [richCmp, sortKey, sortKeyNB, Model.Value.keyEq, Key.eq], by intro h; cases h⟩
 
 theorem binop_div {x y : S} {a b : Rat} (hx : NumLike x a) (hy : NumLike y b) :
@@ -442,21 +456,6 @@ def LitsFinite : Expr → Prop
   | .paren e => LitsFinite e
   | _ => True
 
-def isArith : Spec.C02.BinOp → Bool
-  | .pow | .mul | .div | .add | .sub => true
-  | _ => false
-
-def NotText (v : Res) : Prop := ∀ t, v ≠ .text t
-
-/-- guard of the partial refinement theorem: no arithmetic operator (nor unary minus) receives a
-    text operand (a text only flows into `&` and the comparisons) -/
-def NoTextArith (s : Spec.C01.Env) : Expr → Prop
-  | .neg e => NoTextArith s e ∧ NotText (denote s e)
-  | .bin o l r => NoTextArith s l ∧ NoTextArith s r ∧
-      (isArith o = true → NotText (denote s l) ∧ NotText (denote s r))
-  | .paren e => NoTextArith s e
-  | _ => True
-
 /-- left operand, then right operand, then the operator function -/
 def seq2 (o : Spec.C02.BinOp) (ol or : OpR) : OpR :=
   match ol with
@@ -650,18 +649,20 @@ theorem cat_side (hT : OpFuncOK Gen.infixOpToFunc Gen.prefixOpToFunc) (m : Model
       | text t => rw [hv] at hc; simp [catArg] at hc
       | undef => rw [hv] at hc; simp [catArg] at hc
 
-theorem toNum_cases (v : Res) (hnt : NotText v) (hu : toNum v ≠ .undef) :
-    (∃ q, toNum v = .num q ∧ ((∃ q', v = .num q') ∨ (∃ b, v = .bool b))) ∨ (∃ c, v = .err c) := by
+theorem toNum_cases (v : Res) (hu : toNum v ≠ .undef) :
+    (∃ q, toNum v = .num q) ∨ (∃ c, v = .err c) := by
   cases v with
-  | num q => exact Or.inl ⟨q, rfl, Or.inl ⟨q, rfl⟩⟩
-  | bool b => exact Or.inl ⟨_, rfl, Or.inr ⟨b, rfl⟩⟩
-  | text t => exact absurd rfl (hnt t)
+  | num q => exact Or.inl ⟨q, rfl⟩
+  | bool b => exact Or.inl ⟨_, rfl⟩
+  | text t =>
+    cases hz : intOfText t with
+    | none => exact absurd (by simp [toNum, hz]) hu
+    | some z => exact Or.inl ⟨z, by simp [toNum, hz]⟩
   | err c => exact Or.inr ⟨c, rfl⟩
   | undef => exact absurd rfl hu
 
 /-- both operands of an arithmetic operator: values, errors first -/
 theorem arith_case (f : Rat → Rat → Res) (o : Spec.C02.BinOp) (vl vr : Res) (ol or : OpR)
-    (hnl : NotText vl) (hnr : NotText vr)
     (hres : arith2 f vl vr ≠ .undef)
     (ihl : vl ≠ .undef → Agree ol vl) (ihr : vr ≠ .undef → Agree or vr)
     (hnum : ∀ x y a b, NumLike x a → NumLike y b → f a b ≠ .undef → Agree (opFun o x y) (f a b)) :
@@ -678,14 +679,14 @@ theorem arith_case (f : Rat → Rat → Res) (o : Spec.C02.BinOp) (vl vr : Res) 
   obtain ⟨x, rfl⟩ := agree_val hal
   obtain ⟨y, rfl⟩ := agree_val har
   simp only [seq2]
-  rcases toNum_cases vl hnl hul with ⟨a, hta, _⟩ | ⟨c, rfl⟩
-  · rcases toNum_cases vr hnr hur with ⟨b, htb, _⟩ | ⟨c, rfl⟩
-    · have hx := numLike_of_agree hal hta hnl
-      have hy := numLike_of_agree har htb hnr
+  rcases toNum_cases vl hul with ⟨a, hta⟩ | ⟨c, rfl⟩
+  · rcases toNum_cases vr hur with ⟨b, htb⟩ | ⟨c, rfl⟩
+    · have hx := numLike_of_agree hal hta
+      have hy := numLike_of_agree har htb
       have : arith2 f vl vr = f a b := by simp [arith2, hta, htb]
       rw [this] at hres ⊢
       exact hnum x y a b hx hy hres
-    · have hx := numLike_of_agree hal hta hnl
+    · have hx := numLike_of_agree hal hta
       have := agree_err har
       cases this
       have h2 : arith2 f vl (.err c) = .err c := by unfold arith2; rw [hta]; rfl
@@ -702,16 +703,16 @@ theorem agree_of_eq {o : OpR} {n : Num} {q : Rat} (h : o = .val (.num n)) (hq : 
     Agree o (.num q) := by
   rw [h]; exact hq
 
-/-- **`eval_denote` (partial).**  Evaluating the parse tree of a well-formed operator formula gives
-    the value the formula denotes, wherever the statement defines it and no arithmetic operator reads a
-    text operand. -/
-theorem eval_denote_partial (hT : OpFuncOK Gen.infixOpToFunc Gen.prefixOpToFunc) (m : Model.C01.Env)
+/-- **`eval_denote`.**  Evaluating the parse tree of a well-formed operator formula gives the value the
+    formula denotes, wherever the statement defines it (texts produced by `&` that flow into
+    arithmetic included: `pyIntOfText_intOfText`). -/
+theorem eval_denote (hT : OpFuncOK Gen.infixOpToFunc Gen.prefixOpToFunc) (m : Model.C01.Env)
     (s : Spec.C01.Env) (henv : EnvOK m s) : ∀ (e : Expr), WF e → inC01 e = true → LitsFinite e →
-      NoTextArith s e → denote s e ≠ .undef → Agree (evalAst m (astOf e)) (denote s e) := by
+      denote s e ≠ .undef → Agree (evalAst m (astOf e)) (denote s e) := by
   intro e
   induction e using Expr.ind with
   | num n p =>
-    intro hwf _ hfin _ _
+    intro hwf _ hfin _
     cases p with
     | false =>
       obtain ⟨k, hk, hq, _⟩ := eval_lit m n hwf.1 hfin
@@ -724,7 +725,7 @@ theorem eval_denote_partial (hT : OpFuncOK Gen.infixOpToFunc Gen.prefixOpToFunc)
   | bool _ => intro _ hin; simp [inC01] at hin
   | err _ => intro _ hin; simp [inC01] at hin
   | ref r =>
-    intro hwf hin _ _ _
+    intro hwf hin _ _
     have hsl : r.sheet = .none ∧ r.last = none := by
       simp only [inC01] at hin
       cases hs : r.sheet <;> cases hl : r.last <;> simp_all
@@ -732,30 +733,28 @@ theorem eval_denote_partial (hT : OpFuncOK Gen.infixOpToFunc Gen.prefixOpToFunc)
     simp only [denote, hsl.1, hsl.2]
     exact agree_of_eq hn hq
   | paren e ih =>
-    intro hwf hin hfin hg hu
+    intro hwf hin hfin hu
     simp only [WF] at hwf
     simp only [inC01] at hin
     simp only [LitsFinite] at hfin
-    simp only [NoTextArith] at hg
     simp only [denote] at hu ⊢
-    simpa [astOf] using ih hwf hin hfin hg hu
+    simpa [astOf] using ih hwf hin hfin hu
   | neg e ih =>
-    intro hwf hin hfin hg hu
+    intro hwf hin hfin hu
     simp only [WF] at hwf
     simp only [inC01] at hin
     simp only [LitsFinite] at hfin
-    simp only [NoTextArith] at hg
     simp only [denote] at hu ⊢
     have hune : denote s e ≠ .undef := by
       intro h; rw [h] at hu; simp [toNum] at hu
-    have ha := ih hwf.1 hin hfin hg.1 hune
+    have ha := ih hwf.1 hin hfin hune
     obtain ⟨x, hx⟩ := agree_val ha
     simp only [astOf, evalAst_neg hT, hx]
     rw [hx] at ha
     have htu : toNum (denote s e) ≠ .undef := by
       intro h; rw [h] at hu; exact hu rfl
-    rcases toNum_cases _ hg.2 htu with ⟨q, hq, _⟩ | ⟨c, hc⟩
-    · have hnl := numLike_of_agree ha hq hg.2
+    rcases toNum_cases _ htu with ⟨q, hq⟩ | ⟨c, hc⟩
+    · have hnl := numLike_of_agree ha hq
       obtain ⟨n, hn, hnq⟩ := neg_numLike hnl
       rw [hq]
       exact agree_of_eq hn hnq
@@ -764,43 +763,37 @@ theorem eval_denote_partial (hT : OpFuncOK Gen.infixOpToFunc Gen.prefixOpToFunc)
       cases this
       simp [toNum, Model.Value.neg, Model.Value.isErr, Agree]
   | bin o l r ihl ihr =>
-    intro hwf hin hfin hg hu
+    intro hwf hin hfin hu
     simp only [WF] at hwf
     simp only [inC01, Bool.and_eq_true] at hin
     simp only [LitsFinite] at hfin
-    simp only [NoTextArith] at hg
-    have IHl := ihl hwf.1 hin.1 hfin.1 hg.1
-    have IHr := ihr hwf.2.1 hin.2 hfin.2 hg.2.1
+    have IHl := ihl hwf.1 hin.1 hfin.1
+    have IHr := ihr hwf.2.1 hin.2 hfin.2
     simp only [astOf, evalAst_bin hT]
     cases o
     case add =>
       simp only [denote] at hu ⊢
-      obtain ⟨hnl, hnr⟩ := hg.2.2 rfl
-      exact arith_case _ .add _ _ _ _ hnl hnr hu IHl IHr (fun x y a b hx hy _ => by
+      exact arith_case _ .add _ _ _ _ hu IHl IHr (fun x y a b hx hy _ => by
         obtain ⟨n, hn, hq⟩ := binop_add hx hy
         exact agree_of_eq hn hq)
     case sub =>
       simp only [denote] at hu ⊢
-      obtain ⟨hnl, hnr⟩ := hg.2.2 rfl
-      exact arith_case _ .sub _ _ _ _ hnl hnr hu IHl IHr (fun x y a b hx hy _ => by
+      exact arith_case _ .sub _ _ _ _ hu IHl IHr (fun x y a b hx hy _ => by
         obtain ⟨n, hn, hq⟩ := binop_sub hx hy
         exact agree_of_eq hn hq)
     case mul =>
       simp only [denote] at hu ⊢
-      obtain ⟨hnl, hnr⟩ := hg.2.2 rfl
-      exact arith_case _ .mul _ _ _ _ hnl hnr hu IHl IHr (fun x y a b hx hy _ => by
+      exact arith_case _ .mul _ _ _ _ hu IHl IHr (fun x y a b hx hy _ => by
         obtain ⟨n, hn, hq⟩ := binop_mul hx hy
         exact agree_of_eq hn hq)
     case div =>
       simp only [denote] at hu ⊢
-      obtain ⟨hnl, hnr⟩ := hg.2.2 rfl
-      exact arith_case _ .div _ _ _ _ hnl hnr hu IHl IHr (fun x y a b hx hy _ => by
+      exact arith_case _ .div _ _ _ _ hu IHl IHr (fun x y a b hx hy _ => by
         simp only [opFun, binop_div hx hy, divide]
         split_ifs <;> simp [Agree, Num.toRat])
     case pow =>
       simp only [denote] at hu ⊢
-      obtain ⟨hnl, hnr⟩ := hg.2.2 rfl
-      exact arith_case _ .pow _ _ _ _ hnl hnr hu IHl IHr (fun x y a b hx hy hne =>
+      exact arith_case _ .pow _ _ _ _ hu IHl IHr (fun x y a b hx hy hne =>
         power_numLike hx hy hne)
     case cat =>
       simp only [denote] at hu ⊢
